@@ -189,3 +189,20 @@ def usable(ctx, case, block, L, counter):
                                    "what": f"a well-formed {case.tname} (pinned layout) is not decoded cleanly by strict decoding: {block[-1][:160]}",
                                    "replay": case.replay("S")})
     return ok
+
+
+SMALL_WORLD_TYPES = ["TPM2B_ECC_POINT", "TPM2B_SENSITIVE_CREATE", "TPML_DIGEST", "TPM2B_DIGEST", "TPML_PCR_SELECTION"]
+
+
+def small_world(tier):
+    """every byte string up to a length bound over a small alphabet, read as nested size-prefixed / counted types:
+    all the ways sizes, counts and contents can disagree in a few bytes"""
+    import itertools
+    alpha = [0x00, 0x01, 0x02, 0x04, 0xFF]
+    maxlen = 5 if tier == "quick" else 7
+    out = []
+    for t in SMALL_WORLD_TYPES:
+        for n in range(maxlen + 1):
+            for tup in itertools.product(alpha, repeat=n):
+                out.append(Case(t, None, False, bytes(tup), "small_world"))
+    return out
